@@ -10,7 +10,7 @@ Inductive opcode : Type :=
 | OAdd | OSub | OMul | ODiv | OIdiv | OMod | OUnm
 | OLt | OLe | OEq | OGt | OGe | ONe
 | OBand | OBor | OBxor | OShl | OShr | OBnot
-| OAbs | OFloor | OCeil | OFmod | OToInteger | OUlt | OMax | OMin | OModf | OMType | OKeyType.
+| OAbs | OFloor | OCeil | OFmod | OToInteger | OUlt | OMax | OMin | OModf | OMType | OKeyType | ORandOk.
 
 Inductive rval : Type :=
 | RvNum (x : num) | RvBool (b : bool) | RvNil | RvErr (e : err) | RvPair (x : num) (y : f64)
@@ -40,6 +40,8 @@ Definition eval_im (o : opcode) (x y : num) : rval :=
                 | NFlt f => if fis_nan f then RvErr EOther
                             else match FloatToInt f with Some _ => RvType true | None => RvType false end
                 end
+  (* pcall(math.random, x) succeeds: x must have an integer representation n (IntArg) and n = 0 or n >= 1 *)
+  | ORandOk => RvBool (match ToIntNoString x with Some n => 0 <=? n | None => false end)
   end.
 
 (* S side *)
@@ -117,4 +119,5 @@ Definition eval_s (o : opcode) (x y : num) : rval :=
                 | NFlt f => if fis_nan f then RvErr EOther
                             else match s_float_to_int f with Some _ => RvType true | None => RvType false end
                 end
+  | ORandOk => RvBool (match s_to_int x with Some n => 0 <=? n | None => false end)
   end.
